@@ -117,6 +117,94 @@ def rule_prefix(facts):
     return rr
 
 
+def rule_overwritten(facts):
+    """ERRDISC/overwritten: a Result<_, sink error> stored in a local (or moved into one) is consumed - branched on,
+    passed on, returned - on every path before that local is assigned again or dropped.  `ret = f(); ...; ret = g(); ret`
+    loses the first error: the write goes on and may even report success."""
+    rr = RuleResult("ERRDISC/overwritten", "no sink-error Result is overwritten or dropped before it has been looked at")
+    for body in facts.body_list:
+        for bi, t in body.calls():
+            rp = result_parts(t.get("dty"))
+            if rp is None or not is_external(rp[1], body):
+                continue
+            if t["dst"]["p"]:
+                continue
+            fn = t.get("fn")
+            callee = fn["def"] if fn else "<closure call>"
+            where = body.loc(bi, "term")
+            nxt = [x for x in body.succ[bi] if not body.is_cleanup(x)]
+            lost = None
+            # (local holding the value, block, first statement index to look at)
+            work = [(t["dst"]["l"], b2, 0) for b2 in nxt]
+            seen = set()
+            while work and lost is None:
+                l, b2, s0 = work.pop()
+                if (l, b2, s0) in seen:
+                    continue
+                seen.add((l, b2, s0))
+                if l == 0:
+                    continue                    # the return place: consumed by the caller
+                blk = body.blocks[b2]
+                done = False
+                for si in range(s0, len(blk["stmts"])):
+                    st = blk["stmts"][si]
+                    if st["k"] == "assign":
+                        rv = st["rv"]
+                        reads = False
+                        for key in ("op", "a", "b"):
+                            o = rv.get(key)
+                            if isinstance(o, dict) and o.get("pl") and o["pl"]["l"] == l:
+                                reads = True
+                        if rv.get("pl") and rv["pl"]["l"] == l:
+                            reads = True
+                        for o in rv.get("ops", []):
+                            if o.get("pl") and o["pl"]["l"] == l:
+                                reads = True
+                        if reads:
+                            if rv["k"] == "use" and rv["op"].get("pl") and not rv["op"]["pl"]["p"] and not st["dst"]["p"] \
+                                    and rv["op"].get("k") == "move":
+                                work.append((st["dst"]["l"], b2, si + 1))      # moved as a whole: follow the new holder
+                            done = True
+                            break
+                        if st["dst"]["l"] == l and not st["dst"]["p"]:
+                            lost = ("assigned again", body.loc(b2, si))
+                            done = True
+                            break
+                if done or lost:
+                    continue
+                tm = blk["term"]
+                k = tm["k"]
+                reads = False
+                if k == "call":
+                    reads = any(a.get("pl") and a["pl"]["l"] == l for a in tm["args"])
+                    if not reads and tm["dst"]["l"] == l and not tm["dst"]["p"]:
+                        lost = ("assigned again", body.loc(b2, "term"))
+                        continue
+                elif k == "switch":
+                    reads = bool(tm["d"].get("pl") and tm["d"]["pl"]["l"] == l)
+                elif k == "drop":
+                    if tm["pl"]["l"] == l and not tm["pl"]["p"]:
+                        lost = ("dropped", body.loc(b2, "term"))
+                        continue
+                elif k == "ret":
+                    continue                    # dead at return: ERRDISC's dead-value clause
+                if reads:
+                    continue
+                for x in body.succ[b2]:
+                    if not body.is_cleanup(x):
+                        work.append((l, x, 0))
+            sample = {"function": body.id, "site": where, "callee": callee}
+            if lost:
+                rr.fail(Finding("ERRDISC/overwritten", body.id, "%s->%s" % (callee, lost[0].replace(" ", "-")), 0, where,
+                                "the Result<_, %s> of %s at %s can be %s at %s before anything looked at it: an error the sink "
+                                "reported is lost, the function goes on writing and may return Ok"
+                                % (rp[1], callee, where, lost[0], lost[1])), dict(sample, verdict="FAIL"))
+            else:
+                rr.ok(dict(sample, verdict="ok"))
+    rr.require_floor(70, "sink-error producing call sites")
+    return rr
+
+
 def run(facts, tier, ctx):
     rr = run_errdisc(facts, "ERRDISC/sink", "no Result<_, S::Error | OutputError<S>> of a caller-supplied sink is "
                      "unwrapped, swallowed, discarded or turned into a panic", is_external)
@@ -140,4 +228,4 @@ def run(facts, tier, ctx):
     from . import c10, c08
     extra = [r for r in c10.run(facts, tier, ctx) if r.rule == "RESET"]
     extra += [r for r in c08.rule_effect(facts)]
-    return [rr, inf, rule_prefix(facts)] + extra
+    return [rr, inf, rule_prefix(facts), rule_overwritten(facts)] + extra
